@@ -11,9 +11,10 @@ computes an elliptic-curve or RSA operation: key material, `sign` and `verify` a
 (ii) value-dependent encodings — where the 1/256 "leading zero octet" cases live
 * `stripZeros`, `bitSize`, `mpiWrite`, `mpiRead`   `types/mpi.rs` (`strip_leading_zeros`, `bit_size`,
                                                     `Mpi::from_slice`, `Serialize for Mpi`, `Mpi::try_from_reader`)
-* `padKey`                                          `types/params/plain_secret.rs  pad_key::<SIZE>`
-* `ecFromSlice`                                     `elliptic_curve::SecretKey::from_slice` as called by
-                                                    `crypto/ecdsa.rs  SecretKey::try_from_mpi`
+* `padKey`                                          `types/params/plain_secret.rs  pad_key::<SIZE>` (EdDSA legacy secret), and
+                                                    as called by `crypto/ecdh.rs` / `crypto/ecdsa.rs  SecretKey::try_from_mpi`
+* `ecFromSlicePreFix`                               regression only: `elliptic_curve::SecretKey::from_slice`, which
+                                                    `ecdsa.rs try_from_mpi` used before fix ffb9bdd (D7b)
 * `eddsaSigBytes`                                   `packet/key/public.rs  PubKeyInner::verify` (EdDSALegacy arm)
 * `nativePointMpi`, `eddsaLegacyPointRead`, `ecdh25519PointRead`
                                                     `types/params/public/{eddsa_legacy,ecdh}.rs`
@@ -30,8 +31,11 @@ computes an elliptic-curve or RSA operation: key material, `sign` and `verify` a
                                                     `packet/signature/types.rs Signature::verify_*`
 * `verifyDetails`, `verifyBindingsPublic`, `verifyBindingsSecret`
                                                     `composed/signed_key/{shared,public,secret}.rs`, `types/user.rs`
-(v) packet-header bookkeeping of secret key packets (`set_password_with_s2k` keeps the old header)
-* `KeyPkt`, `lockPkt`, `exportPkt`, `importPkt`     `packet/key/secret.rs`, `packet/packet_sum.rs to_writer_with_header`
+(v) packet-header bookkeeping of secret key packets (`set_password_with_s2k` / `remove_password`
+    recompute the header: `refresh_packet_header`)
+* `KeyPkt`, `newPkt`, `lockPkt`, `unlockPkt`, `applyOps`, `reimportPkt`
+                                                    `packet/key/secret.rs`, `packet/packet_sum.rs to_writer_with_header`
+* `lockPktPreFix`                                   regression only: locking before fix 05de5d4 (D5c)
 -/
 namespace Rpgp.KeyGen
 
@@ -73,16 +77,18 @@ def mpiRead : Bytes → Option (Bytes × Bytes)
 
 /-! ## fixed-size scalars are re-padded on read -/
 
-/-- `pad_key::<SIZE>`: right-align in `SIZE` zero octets; longer input is an error -/
+/-- `pad_key::<SIZE>`: right-align in `SIZE` zero octets; longer input is an error.  Used for the
+EdDSA legacy secret (`plain_secret.rs`), the ECDH secrets (`ecdh.rs try_from_mpi`) and the ECDSA
+secrets (`ecdsa.rs try_from_mpi`), each at the scalar size of its curve. -/
 def padKey (n : Nat) (val : Bytes) : Option Bytes :=
   if val.length ≤ n then some (List.replicate (n - val.length) 0 ++ val) else none
 
-/-- `elliptic_curve::SecretKey::<C>::from_slice` (dependency, `MIN_SIZE = 24`), the padding step
-of `ecdsa::SecretKey::try_from_mpi`: exact size, or at least 24 octets which are then left-padded.
-(The range check of the scalar is part of the primitive and not modelled.) -/
+/-- REGRESSION ONLY (pre-fix code, D7b): `elliptic_curve::SecretKey::<C>::from_slice` (dependency,
+`MIN_SIZE = 24`), the padding step `ecdsa::SecretKey::try_from_mpi` used before it was switched to
+`pad_key`: exact size, or at least 24 octets which are then left-padded. -/
 def ecMinSize : Nat := 24
 
-def ecFromSlice (n : Nat) (s : Bytes) : Option Bytes :=
+def ecFromSlicePreFix (n : Nat) (s : Bytes) : Option Bytes :=
   if s.length = n then some s
   else if ecMinSize ≤ s.length ∧ s.length < n then some (List.replicate (n - s.length) 0 ++ s)
   else none
@@ -200,7 +206,7 @@ def EncCaps.isStorage : EncCaps → Bool
 
 inductive BuildErr where
   | v6PrimaryNonV6Sub | nonV6PrimaryV6Sub | cannotSign | cannotEncrypt | cannotAuth | rsaSmall
-  | ecdsaCurve | v4NeedsUid
+  | ecdsaCurve | v4NeedsUid | keyVersion | subkeyVersion
   deriving DecidableEq, Repr
 
 /-- `SubkeyParams` as far as validation and shape look at it -/
@@ -253,10 +259,20 @@ def validateSubs : List SubParams → Except BuildErr Unit
     | .error e => .error e
     | .ok () => validateSubs r
 
-/-- `SecretKeyParamsBuilder::validate`.  NB the last test compares the *builder field*
-(`self.version == Some(V4)`): a builder whose version was never set builds a v4 key
-(`KeyVersion::default()`) without passing through it. -/
+/-- the version the built `SecretKeyParams` carries (`#[builder(default)]` = `KeyVersion::V4`) -/
+def Builder.effVersion (b : Builder) : Nat := b.version.getD 4
+
+/-- `KeyVersion::V5 | KeyVersion::Other(_)`: key packets of these versions cannot be constructed
+(`PubKeyInner::write_len` panics); octets 2, 3, 4, 6 are the other variants -/
+def unconstructible (v : Nat) : Bool := !(v == 2 || v == 3 || v == 4 || v == 6)
+
+/-- `SecretKeyParamsBuilder::validate`: unconstructible versions (primary, then subkeys), version
+mixing, capabilities of the primary, of the subkeys, and "V4 keys must have a primary User ID"
+(tested on the effective version: `self.version.unwrap_or_default()`) -/
 def validate (b : Builder) : Except BuildErr Unit :=
+  if unconstructible b.effVersion then .error .keyVersion
+  else if b.subkeys.any (fun s => unconstructible s.version) then .error .subkeyVersion
+  else
   match validateVersions b.version b.subkeys with
   | .error e => .error e
   | .ok () =>
@@ -266,10 +282,7 @@ def validate (b : Builder) : Except BuildErr Unit :=
       match validateSubs b.subkeys with
       | .error e => .error e
       | .ok () =>
-        if b.version = some 4 ∧ b.primaryUid = none then .error .v4NeedsUid else .ok ()
-
-/-- the version the built `SecretKeyParams` carries (`#[builder(default)]` = `KeyVersion::V4`) -/
-def Builder.effVersion (b : Builder) : Nat := b.version.getD 4
+        if b.effVersion = 4 ∧ b.primaryUid = none then .error .v4NeedsUid else .ok ()
 
 /-! ## (iii) shape of `generate` over abstract primitives -/
 
@@ -494,6 +507,18 @@ structure GenParams where
   subkeys : List SubParams
   subCreated : Nat := 0
   deriving Repr
+
+/-- `build()` of a builder whose key type is `kt`: the `SecretKeyParams` that `generate` receives
+(capabilities that were never set default to false / `EncryptionCaps::None`; the version to
+`KeyVersion::default()`) -/
+def Builder.toParams (b : Builder) (kt : KeyType) (prefs : Prefs) (created subCreated : Nat) : GenParams :=
+  { version := b.effVersion, keyType := kt,
+    flags := { certify := b.canCertify.getD false, sign := b.canSign.getD false,
+               encryptComms := (b.canEncrypt.getD .none).isCommunication,
+               encryptStorage := (b.canEncrypt.getD .none).isStorage,
+               authentication := b.canAuth.getD false },
+    prefs := prefs, created := created, primaryUid := b.primaryUid, uids := b.uids,
+    subkeys := b.subkeys, subCreated := subCreated }
 
 /-- randomness and clock of one run: secret material per key, one salt per signature slot, `now` -/
 structure GenRand (S : Type) where
@@ -721,9 +746,21 @@ def verifySubPublic (key sub : K) (sigs : List Sg) : Bool :=
          | none => false)
        else true))
 
-/-- `SignedSecretSubKey::verify_bindings`: at least one signature; every signature must verify.
-(The embedded back-signature is NOT looked at.) -/
+/-- `SignedSecretSubKey::verify_bindings`: the same checks as for the public form (since the fix of
+D15a: every signature must verify, and a binding whose key flags say "sign" must carry an embedded
+back-signature that verifies) -/
 def verifySubSecret (key sub : K) (sigs : List Sg) : Bool :=
+  !sigs.isEmpty && sigs.all (fun s =>
+    C.vSub key sub s &&
+      (if C.flagsSign s then
+        (match C.embedded s with
+         | some b => C.vBack sub key b
+         | none => false)
+       else true))
+
+/-- REGRESSION ONLY (pre-fix code, D15a): the secret path that did not look at the embedded
+back-signature -/
+def verifySubSecretPreFix (key sub : K) (sigs : List Sg) : Bool :=
   !sigs.isEmpty && sigs.all (C.vSub key sub)
 
 end bindings
@@ -796,9 +833,28 @@ structure KeyPkt where
 /-- `SecretKey::new`: the header is computed from the body -/
 def newPkt (bodyLen : Nat) : KeyPkt := { hdrLen := bodyLen, bodyLen := bodyLen }
 
-/-- `SecretKey::set_password_with_s2k`: replaces `secret_params` (the body grows by the S2K
-specifier, IV and the integrity octets) and leaves `packet_header` as it was -/
-def lockPkt (k : KeyPkt) (growth : Nat) : KeyPkt := { k with bodyLen := k.bodyLen + growth }
+/-- `SecretKey::set_password_with_s2k` / `SecretSubkey::…`: replaces `secret_params` (the body
+grows by the S2K specifier, IV and the integrity octets), then `refresh_packet_header` recomputes
+the header from the new body -/
+def lockPkt (k : KeyPkt) (growth : Nat) : KeyPkt :=
+  { hdrLen := k.bodyLen + growth, bodyLen := k.bodyLen + growth }
+
+/-- `remove_password`: the body shrinks again, the header is recomputed -/
+def unlockPkt (k : KeyPkt) (shrink : Nat) : KeyPkt :=
+  { hdrLen := k.bodyLen - shrink, bodyLen := k.bodyLen - shrink }
+
+/-- a history of lock / unlock operations on one packet -/
+inductive PktOp where
+  | lock (growth : Nat) | unlock (shrink : Nat)
+  deriving DecidableEq, Repr
+
+def applyOps (k : KeyPkt) : List PktOp → KeyPkt
+  | [] => k
+  | .lock g :: r => applyOps (lockPkt k g) r
+  | .unlock g :: r => applyOps (unlockPkt k g) r
+
+/-- REGRESSION ONLY (pre-fix code, D5c): locking that left `packet_header` as it was -/
+def lockPktPreFix (k : KeyPkt) (growth : Nat) : KeyPkt := { k with bodyLen := k.bodyLen + growth }
 
 /-- `to_writer_with_header` writes a header normalised to `write_len()`; the parser stores the
 header it read: export followed by import -/
